@@ -77,6 +77,7 @@ def discover():
                     break
             if not name:
                 raise SystemExit(f"{fn}:{i+1}: @harness without fn")
+            end = item_end(lines, i + 1)
             if "mod" in meta:
                 sub = "::" + meta["mod"]
             out.append({
@@ -85,12 +86,28 @@ def discover():
                 "bound": meta.get("bound", ""), "timeout": int(meta.get("timeout", "300")),
                 "native": meta.get("native", "no") == "yes", "stubs": meta.get("stubs", ""),
                 "expect": meta.get("expect", "pass"), "line": i + 1, "reach": meta.get("reach", "on"), "mem": int(meta.get("mem", "0")), "thorough_for": meta.get("thorough_for", "").split(","),
+                "end_line": end + 1,
             })
     names = [h["name"] for h in out]
     dup = {n for n in names if names.count(n) > 1}
     if dup:
         raise SystemExit(f"duplicate harness names: {dup}")
     return out
+
+
+def item_end(lines, i):
+    """0-based index of the last line of the item that starts at line i (a one-line macro invocation or a
+    brace-delimited block).  Harness sources keep braces out of string literals, so plain counting is enough."""
+    if re.match(r"^\s*\w+!\(.*\);\s*$", lines[i]):
+        return i
+    depth, started = 0, False
+    for j in range(i, len(lines)):
+        code = lines[j].split("//")[0]
+        depth += code.count("{") - code.count("}")
+        started = started or "{" in code
+        if started and depth <= 0:
+            return j
+    return len(lines) - 1
 
 
 # ------------------------------------------------------------------ running
@@ -107,15 +124,82 @@ def kani_cmd(pkg, target_dir, fqs, timeout, extra=()):
     return cmd
 
 
-def env_for():
+def env_for(verif_dir=None):
     e = dict(os.environ)
-    e["VHOST_VERIF_DIR"] = e.get("VHOST_VERIF_DIR_OVERRIDE", VERIF)
+    e["VHOST_VERIF_DIR"] = verif_dir or e.get("VHOST_VERIF_DIR_OVERRIDE", VERIF)
     e["CARGO_NET_OFFLINE"] = "true"
     e.pop("RUSTFLAGS", None)
     return e
 
 
-def run_group(slot, pkg, hs, mem_kb, log_path, extra=(), jobs=1):
+def errors_in_harnesses(text, all_h):
+    """Map rustc error locations inside harness/*.rs to the harnesses whose item contains them.
+    -> (harnesses, isolable): isolable is False when some error lies outside every harness item (shared
+    helper, /repo source), in which case leaving harnesses out cannot repair the build."""
+    locs = re.findall(r"^error(?:\[E\d+\])?:[^\n]*\n(?:[^\n]*\n){0,3}?\s+--> (\S+?):(\d+):\d+", text, flags=re.M)
+    bad, isolable = {}, bool(locs)
+    for path, line in locs:
+        fn, line = os.path.basename(path), int(line)
+        if "/harness/" not in path:
+            isolable = False
+            continue
+        hit = [h for h in all_h if h["file"] == fn and h["line"] <= line <= h["end_line"]]
+        if hit:
+            bad[hit[0]["name"]] = hit[0]
+        else:
+            isolable = False
+    return list(bad.values()), isolable
+
+
+def filtered_harness_copy(slot, bad):
+    """Copy of /verif/harness with the items of `bad` blanked out (line numbers preserved)."""
+    root = os.path.join(WORK, f"harness_filtered{slot}")
+    shutil.rmtree(root, ignore_errors=True)
+    shutil.copytree(HARNESS_DIR, os.path.join(root, "harness"))
+    os.makedirs(os.path.join(root, ".work"), exist_ok=True)
+    shutil.copy(os.path.join(WORK, "uapi_table.rs"), os.path.join(root, ".work", "uapi_table.rs"))
+    for fn in {h["file"] for h in bad}:
+        p = os.path.join(root, "harness", fn)
+        lines = open(p).read().split("\n")
+        for h in bad:
+            if h["file"] == fn:
+                for k in range(h["line"] - 1, h["end_line"]):
+                    lines[k] = ""
+        open(p, "w").write("\n".join(lines))
+    return root
+
+
+def run_group_resilient(slot, pkg, hs, mem_kb, log_path, jobs, all_h):
+    """run_group; when the crate does not compile because of harnesses that call private items which the
+    tree under test has changed (a refactor), leave exactly those harnesses out - they are reported as
+    inconclusive - and run the rest, instead of losing every harness of the package."""
+    res = run_group(slot, pkg, hs, mem_kb, log_path, (), jobs)
+    left_out = {}
+    for attempt in range(3):
+        if not res or not all(r["status"] == "COMPILE_ERROR" for r in res.values()):
+            break
+        text = open(log_path if attempt == 0 else log_path + f".retry{attempt}", errors="replace").read()
+        bad, isolable = errors_in_harnesses(text, [h for h in all_h if h["pkg"] == pkg])
+        if not bad or not isolable:
+            break
+        for b in bad:
+            left_out[b["name"]] = b
+        root = filtered_harness_copy(slot, list(left_out.values()))
+        rest = [h for h in hs if h["name"] not in left_out]
+        if not rest:
+            break
+        res2 = run_group(slot, pkg, rest, mem_kb, log_path + f".retry{attempt + 1}", (), jobs, verif_dir=root)
+        for h in hs:
+            if h["name"] in left_out:
+                res2[h["name"]] = dict(res[h["name"]], status="COMPILE_ERROR",
+                                       detail="this harness does not compile against the tree under test (an item it calls was changed); it was left out so that the other harnesses could run")
+        res = res2
+    if left_out:
+        print(f"[driver] left out (do not compile against this tree): {', '.join(sorted(left_out))}")
+    return res
+
+
+def run_group(slot, pkg, hs, mem_kb, log_path, extra=(), jobs=1, verif_dir=None):
     """One cargo-kani process (own target dir) verifying the harnesses `hs`; with jobs>1 Kani verifies
     them in parallel after a single compilation and writes one result file per harness."""
     tmo = max(h["timeout"] for h in hs)
@@ -133,7 +217,7 @@ def run_group(slot, pkg, hs, mem_kb, log_path, extra=(), jobs=1):
     sh = f"ulimit -v {mem_kb}; exec timeout {total} " + " ".join(map(shquote, cmd))
     t0 = time.time()
     with open(log_path, "w") as lf:
-        p = subprocess.run(["bash", "-c", sh], cwd=REPO, env=env_for(), stdout=lf, stderr=subprocess.STDOUT)
+        p = subprocess.run(["bash", "-c", sh], cwd=REPO, env=env_for(verif_dir), stdout=lf, stderr=subprocess.STDOUT)
     wall = time.time() - t0
     text = open(log_path, errors="replace").read()
     if parallel:
@@ -697,7 +781,7 @@ def main():
             mk = (k[2] * 1024 * 1024) if k[2] else mem_kb
             # memory-hungry harnesses run a few at a time
             jb = share[k] if not k[2] else max(1, min(share[k], 56 // k[2]))
-            futs.append(ex.submit(run_group, slot, k[0], sub, mk, log, (), jb))
+            futs.append(ex.submit(run_group_resilient, slot, k[0], sub, mk, log, jb, all_h))
         for f in futs:
             results.update(f.result())
     for h in todo:
